@@ -126,7 +126,7 @@ EXTRA7 = {
     "C20": "The page a type link names lists the entry; the url filter is used through the templates only (page-depth prefix).",
 }
 EXTRA8 = {
-    "C01": "R-C01-CLAMP: recognised saturation clamps store the bound they test, lower bound from below, upper from above; R-C01-TAG: union options are numbered by loop.index0 everywhere the position is printed, C++ chains select on equality.",
+    "C01": "R-C01-CLAMP: recognised saturation clamps store the bound they test, lower bound from below, upper from above; R-C01-TAG: union options are numbered by loop.index0 everywhere the position is printed, C++ chains select on equality; R-C01-NESTED-WINDOW: the nested serializer's window starts behind the delimiter header space and is sized by the nested type's largest size.",
     "C02": "Raw-read guards are exact (cursor < capacity or cursor + positive length <= capacity); Python length-prefix and delimiter-header refusals judged per path (exact comparison, read -> refuse -> use); R-C02-TAG as R-C01-TAG; {% call %} scaffolds and helper macros are read in their callers.",
     "C09": "_encode is read with its private helpers written out (value and procedure helpers).",
     "C19": "UseQuery.parse is read with private methods written out and class constants in place (flag tables).",
